@@ -134,6 +134,17 @@ func init() {
 			},
 		},
 		propCheck{
+			ID: "C20", Level: "exploration",
+			Rule: "one evaluation = one simulated history on a table with an AUTO_INCREMENT primary key (INT / BIGINT / INT UNSIGNED / TINYINT UNSIGNED, optional UNIQUE key for failing inserts): multi-row inserts mixing NULL / 0 / omitted / explicit ids (above the maximum, unused below it, existing), inserts failing at a drawn row, injected storage errors, deletes of the maximum row and of everything, ALTER TABLE .. AUTO_INCREMENT = n below and above the maximum, BEGIN/COMMIT/ROLLBACK, session drops, 1-2 sessions with never-overlapping writers; oracle: every generated and stored value is unique among all generated values ever stored, greater than every value stored before the statement, increasing inside a statement; OkResult.InsertID and LAST_INSERT_ID() = first generated value of the session's last successful generating insert, unchanged by failed inserts and by other sessions; non-trivial = 2 sessions or a fault fired; distinct = distinct hash of the action/outcome sequence",
+			Real: []string{"insert iterator auto-increment handling, accumulator OK result", "memory table editor auto-increment counter, ALTER TABLE AUTO_INCREMENT"},
+			Stub: []string{"session scheduling at statement granularity", "storage error source (verifhook.Fault)"},
+			Assumptions: []string{"gaps are allowed; a value consumed only by a failed or rolled-back statement may come again; an explicit ALTER TABLE .. AUTO_INCREMENT resets the baseline as MySQL does", "UPDATE of the auto column is not generated"},
+			Subs: []subCheck{
+				{ID: "C20", World: "sqlsim", Quick: 8000, Thorough: 400000, QuickCap: 80, ThoroughCap: 1500, GC: "100",
+					Probes: []string{"generated-value-checked", "max-row-deleted", "failed-insert", "rollback"}},
+			},
+		},
+		propCheck{
 			ID: "C35", Level: "exploration",
 			Rule: "one evaluation = one simulated run of the whole server (vitess listener/conn code, handler with spool pipeline and disconnect watcher, engine) in a synctest bubble on the simulated network: 1-4 real go-sql-driver connections issue text-protocol SELECTs whose result sizes sit on the seams of the spool pipeline (0,1,127..129,255..257,511..514,640+ rows; >= 5 batches), binary-protocol prepared SELECTs, aggregates, planning errors, errors raised while iterating, OK results (INSERT/UPDATE/DELETE with affected rows and last insert id), SLEEP; the tape decides delivery order between connections, fragmentation (incl. inside the 4-byte packet header), stalls while the clock advances, a bounded server->client half (back-pressure) and connection resets in the middle of a statement; oracle: client-observed columns, row sequence, counts and error numbers equal the engine's own result for the same statement (rendered by the harness), prefix-only under reset, every statement completes within 120 simulated seconds after the last fault, and after all clients ended the process list and Threads_* counters are back to zero; non-trivial = >= 2 connections or a fault fired; distinct = distinct hash of the event-kind sequence",
 			Real: []string{"server.Handler (doQuery, resultFor*Iter spool pipeline, connection watcher)", "vitess mysql.Listener / Conn protocol code", "go-sql-driver/mysql client", "engine + memory backend"},
